@@ -251,6 +251,7 @@ class Gen(object):
         if intro == 225000:
             out.append(8024)
         out += self.markers(intro, nbits)
+        self.last_nbits = nbits
         if reuse and rnd.random() < 0.8:
             again = rnd.choice([222000, 223000, 224000, 225000, 232000])
             out += [again, 237000]
@@ -284,6 +285,20 @@ class Gen(object):
                 out += self.bitmap_section(False, False)
             elif r < 0.5:
                 out += self.elems(1)
+            elif r < 0.75 and getattr(self, 'last_nbits', 0):
+                # further definitions WITHOUT cancelling the back references: the window stays, so the bitmaps keep their length
+                n = self.last_nbits
+                for _ in range(self.rnd.randint(1, 2)):
+                    intro = self.rnd.choice([223000, 224000, 225000, 232000])
+                    out.append(intro)
+                    if self.rnd.random() < 0.5:
+                        out.append(236000)
+                    out += [101000 + n, 31031]
+                    if intro == 224000:
+                        out.append(8023)
+                    if intro == 225000:
+                        out.append(8024)
+                    out += [101000, 31001, intro + 255]
         elif self.rnd.random() < 0.15:
             # ends inside an operator bracket (whatever a subset leaves behind must not reach the next one)
             out += self.rnd.choice([[201000 + 130, self.num()], [202000 + 129, self.num()], [207001, self.num()], [208002, self.rnd.choice(self.p['str'])]])
